@@ -125,6 +125,28 @@ def run(ctx: core.Ctx):
         sel = reps if len(reps) <= 100 else rnd.sample(reps, 60 if ctx.quick else 200)
         pairs = [(a, b) for a in sel for b in sel if a == b or rnd.random() < (0.2 if ctx.quick else 1.0)]
         strat += [(ground_pairs, (n, ch, rnd.randrange(1 << 30))) for ch in core.chunked(pairs, 16)]
+    # near-miss pairs: groups that differ by ONE single-qubit Clifford / one CZ / one qubit swap (equal on all other qubits) - the pairs an approximate or lossy comparison confuses
+    def near_miss(n, key):
+        rows = G.rows_from_key(n, key)
+        for q in range(n):
+            for c in range(1, 6):
+                yield G.canon_keys(n, G.apply_layer_unsigned(n, rows, [c if i == q else 0 for i in range(n)]))
+        for q in range(n):
+            for nm, qs in (("cz", [q, (q + 1) % n]), ("swap", [q, (q + 1) % n])):
+                yield G.canon_keys(n, [P.conj_gate((x, z, 0), nm, qs)[:2] for x, z in rows])
+
+    for n in (4, 5, 6):
+        if n <= 5:
+            by_orb = {}
+            for k, o in G.all_groups(n).items():
+                by_orb.setdefault(o, []).append(k)
+            reps = [rnd.choice(v) for v in by_orb.values()]
+        else:
+            rep_ids = G.orbit_table(6)[1]
+            reps = [G.canon_keys(6, G.apply_layer_unsigned(6, [(x, z) for x, z, _ in G.graph_state_gens(6, G.adj_from_id(6, g))], [rnd.randrange(6) for _ in range(6)])) for g in rep_ids]
+        sel = reps if len(reps) <= 100 else rnd.sample(reps, 40 if ctx.quick else 400)
+        pairs = [(a, b) for a in sel for b in near_miss(n, a)]
+        strat += [(ground_pairs, (n, ch, rnd.randrange(1 << 30))) for ch in core.chunked(pairs, 64)]
     # edited objects: behaviour must follow the data the object holds now (systematic single-qubit / CZ edits on every qubit, every class)
     from .. import history
     hj = []
